@@ -80,6 +80,12 @@ var c01Probes = []c01Probe{
 	{Name: "P18_allof_members_with_property_names_that_normalise_alike", Targets: []string{"models"},
 		Doc:  op(`"paths":{},"components":{"schemas":{"A":{"type":"object","properties":{"foo-bar":{"type":"string"}}},"B":{"allOf":[{"$ref":"#/components/schemas/A"},{"type":"object","properties":{"foo_bar":{"type":"integer"}}}]}}}`),
 		Tune: func(c *codegen.Configuration) { c.OutputOptions.SkipPrune = true }},
+	{Name: "P20_map_of_map_of_map_without_flattening", Targets: []string{"models"},
+		Doc: op(`"paths":{},"components":{"schemas":{"M":{"type":"object","additionalProperties":{"type":"object","additionalProperties":{"type":"object","additionalProperties":{"type":"string"}}}}}}`),
+		Tune: func(c *codegen.Configuration) {
+			c.OutputOptions.SkipPrune = true
+			c.Compatibility.DisableFlattenAdditionalProperties = true
+		}},
 	{Name: "P19_skip_fmt_output_keeps_every_import", Targets: []string{"models"},
 		Doc: op(`"paths":{},"components":{"schemas":{"S":{"type":"string"}}}`),
 		Tune: func(c *codegen.Configuration) {
